@@ -6,12 +6,15 @@ LEVEL = 'proof'
 EXPLANATION = ('K1: the marking loops of SUMIFS / COUNTIFS / AVERAGEIFS (1 and 2 criteria pairs) and SUMIF proved with '
                'abstract total criteria: position j survives exactly when every criterion accepts the j-th cell of its range '
                '(blank as 0, TRUE/FALSE as 1/0), ranges of different sizes raise; element contracts of the final folds; K-S '
-               'binding of target range and (range, criterion) pairs; criterion semantics (interpolated lambdas, re, '
-               'dateutil) bounded only.')
+               'binding of target range and (range, criterion) pairs; K1 on _accepts: what a typed criterion accepts (a number, a '
+               'boolean, a date, or one of the six operators joined to such an operand: 21 instances - only cells of the same kind, '
+               'exact comparison, <> the negation of =); criteria written as text (operator prefix parsing, wildcards, numeric and '
+               'date texts: str / re / dateutil) are bounded only.')
 MOD = 'contracts.rt'
 K1 = ['_sum_if', '_sumifs.select/1', '_sumifs.select/2', '_countifs.select/1', '_countifs.select/2',
       '_averageifs.select/1', '_averageifs.select/2', '_countifs.count_filter', '_sumifs.bool_to_int', '_sumifs.keep_filter',
-      '_when_cell_is_empty_cast_to_zero.elt']
+      '_when_cell_is_empty_cast_to_zero.elt'] + \
+     [f'_accepts/{form}/{kind}' for kind in ('num', 'bool', 'date') for form in ('plain', 'eq', 'ne', 'gt', 'lt', 'ge', 'le')]
 A = 'AREA(0, 0, 0, 0, 2)'
 B = 'AREA(0, 1, 0, 1, 2)'
 Cc = 'AREA(0, 2, 0, 2, 2)'
@@ -40,8 +43,10 @@ def run(ctx):
     K.conformance(res, 'contracts.rt', CONFORMANCE)
     K.monitor_if_present(res, ctx, 'mon_c12')
     res.trusted_base += ['L-SUBST', 'A-ACYCLIC']
-    res.assumptions += ['criteria are abstract total callables in the K1 contracts (their text is produced by interpolation and '
-                        'uses re / dateutil: bounded monitor C12.monitor.*)',
+    res.assumptions += ['criteria are abstract total callables in the K1 contracts of the selection loops; what a criterion accepts is '
+                        'proved on _accepts for typed criteria (a number, a boolean, a date, or one of the six operators joined to '
+                        'such an operand); criteria given as text (operator prefix parsing, wildcards, numeric and date texts: str / re / '
+                        'dateutil) are decided by the bounded monitor C12.monitor.criteria_* only',
                         'ranges are flat in the K1 contracts (flattening has its own contract, C11); 1 and 2 criteria pairs '
                         'are proved, 3 pairs are bounded',
                         'extraction #head<N>: the final fold statements are dropped from the marking-loop contracts and covered by '
